@@ -1047,6 +1047,42 @@ fn main() {
         }
         }
         let cfg = vgad::laws::Cfg::default();
+        // RIPEMD-160 (a from-scratch circuit with the same plain/spreaded table design): the last
+        // (thorough: the last eight) instance(s) of every region name
+        {
+            let c = RipemdCase {
+                msg: content("seeded", 1, seed, "ripemd160"),
+                content: "seeded".into(),
+            };
+            let per_kind = tier.pick(1usize, 8usize);
+            let mut rjobs: Vec<(String, (RipemdCase, u32, Vec<u32>))> = vec![];
+            if let Some((_, _, k)) = sizes.get(&fs::FsCase::key(&c)).copied() {
+                if let Some(regs) = vcore::in_pool(1, || vgad::laws::regions_of_subject(&fs::FsSubject(&c), k)) {
+                    let mut seen: HashMap<String, usize> = HashMap::new();
+                    let mut picked: Vec<u32> = vec![];
+                    for (rid, name, _) in regs.iter().rev() {
+                        let e = seen.entry(name.clone()).or_default();
+                        *e += 1;
+                        if *e <= per_kind {
+                            picked.push(*rid);
+                        }
+                    }
+                    picked.sort();
+                    cx.note(format!("laws: {} regions of {} names in {}; {} explored", regs.len(), seen.len(), fs::FsCase::key(&c), picked.len()));
+                    for (ci, ch) in picked.chunks(1).enumerate() {
+                        rjobs.push((format!("{}#laws{ci}", fs::FsCase::key(&c)), (c.clone(), k, ch.to_vec())));
+                    }
+                }
+            }
+            if thorough {
+                cx.next_group_share(240.0);
+            }
+            cx.run_cases("laws-ripemd160", &rjobs, |(c, k, rids)| {
+                let mut out = CaseOut::batch();
+                vgad::laws::explore_subject(&fs::FsSubject(c), *k, rids, &cfg, &mut out);
+                out
+            });
+        }
         if thorough {
             cx.next_group_share(600.0);
         }
